@@ -47,13 +47,15 @@ func NewTCPGroupCtl(portManager *ports.Manager) *TCPGroupCtl {
 func (tgc *TCPGroupCtl) Listen(proxyName string, group string, groupKey string,
 	addr string, port int,
 ) (l net.Listener, realPort int, err error) {
+	// The controller lock is held across lookup AND join, and CloseListener takes it before the
+	// group lock: a join can no longer re-populate a group whose last member is leaving.
 	tgc.mu.Lock()
+	defer tgc.mu.Unlock()
 	tcpGroup, ok := tgc.groups[group]
 	if !ok {
 		tcpGroup = NewTCPGroup(tgc)
 		tgc.groups[group] = tcpGroup
 	}
-	tgc.mu.Unlock()
 	verifhook.At("tcpgroup.listen.lookedup", proxyName)
 
 	return tcpGroup.Listen(proxyName, group, groupKey, addr, port)
@@ -166,6 +168,8 @@ func (tg *TCPGroup) Accept() <-chan net.Conn {
 
 // CloseListener remove the TCPGroupListener from the TCPGroup
 func (tg *TCPGroup) CloseListener(ln *TCPGroupListener) {
+	tg.ctl.mu.Lock()
+	defer tg.ctl.mu.Unlock()
 	tg.mu.Lock()
 	defer tg.mu.Unlock()
 	for i, tmpLn := range tg.lns {
@@ -178,7 +182,7 @@ func (tg *TCPGroup) CloseListener(ln *TCPGroupListener) {
 		close(tg.acceptCh)
 		tg.tcpLn.Close()
 		tg.ctl.portManager.Release(tg.realPort)
-		tg.ctl.RemoveGroup(tg.group)
+		delete(tg.ctl.groups, tg.group)
 	}
 }
 
